@@ -296,7 +296,7 @@ func c48ExhaustiveMutations(t *testing.T, c *ev.Collector, pool *ref.OCSPPool, b
 		masks = []byte{0x01, 0x02, 0x04, 0x08, 0x10, 0x20, 0x40, 0x80, 0xff}
 	}
 	nBases := ev.Scale(2, len(bases))
-	total := 0
+	total, full := 0, 0
 	item := 0
 	for bi := 0; bi < nBases; bi++ {
 		b := bases[bi]
@@ -312,6 +312,7 @@ func c48ExhaustiveMutations(t *testing.T, c *ev.Collector, pool *ref.OCSPPool, b
 			m := append([]byte{}, b.der...)
 			for pos := range b.der {
 				item++
+				full += len(masks)
 				if !ev.Mine(item) {
 					continue
 				}
@@ -345,5 +346,6 @@ func c48ExhaustiveMutations(t *testing.T, c *ev.Collector, pool *ref.OCSPPool, b
 			}
 		}
 	}
-	c.Exhaustive(fmt.Sprintf("every byte of %d valid responses XOR %d masks, parsed with the right issuer (and with none when a certificate is embedded)", nBases, len(masks)), total)
+	c.Exhaustive(fmt.Sprintf("every byte of %d valid responses XOR %d masks, parsed with the right issuer (and with none when a certificate is embedded); the space is split across the shards", nBases, len(masks)), full)
+	c.ClassN("X:this-shard", total)
 }
